@@ -93,7 +93,7 @@ func (v *VerifUAEAD) DecodePacketNumber(wirePN protocol.PacketNumber, l protocol
 func (v *VerifUAEAD) SetLargestAcked(pn protocol.PacketNumber) int {
 	return verifErrClass(v.a.SetLargestAcked(pn))
 }
-func (v *VerifUAEAD) SetHandshakeConfirmed()        { v.a.SetHandshakeConfirmed() }
+func (v *VerifUAEAD) SetHandshakeConfirmed()         { v.a.SetHandshakeConfirmed() }
 func (v *VerifUAEAD) SetInvalidPacketLimit(l uint64) { v.a.invalidPacketLimit = l }
 func (v *VerifUAEAD) InvalidPacketLimit() uint64     { return v.a.invalidPacketLimit }
 func (v *VerifUAEAD) EncryptHeader(sample []byte, firstByte *byte, hdrBytes []byte) {
@@ -108,10 +108,10 @@ func (v *VerifUAEAD) Overhead() int { return v.a.Overhead() }
 func (v *VerifUAEAD) ThreePTO() int64 { return (3 * v.rtt.PTO(true)).Nanoseconds() }
 
 // Observation of the fields that are the property's subject.
-func (v *VerifUAEAD) Phase() uint64                   { return uint64(v.a.keyPhase) }
-func (v *VerifUAEAD) HasPrevKeys() bool               { return v.a.prevRcvAEAD != nil }
+func (v *VerifUAEAD) Phase() uint64                      { return uint64(v.a.keyPhase) }
+func (v *VerifUAEAD) HasPrevKeys() bool                  { return v.a.prevRcvAEAD != nil }
 func (v *VerifUAEAD) HighestRcvd() protocol.PacketNumber { return v.a.highestRcvdPN }
-func (v *VerifUAEAD) InvalidCount() uint64            { return v.a.invalidPacketCount }
+func (v *VerifUAEAD) InvalidCount() uint64               { return v.a.invalidPacketCount }
 
 func VerifKeyPhaseConsts() [][2]any {
 	return [][2]any{
@@ -169,9 +169,13 @@ func VerifRawMaskLongSealer(s LongHeaderSealer, sample []byte) []byte {
 func VerifRawMaskLongOpener(o LongHeaderOpener, sample []byte) []byte {
 	return verifRawMask(o.(*longHeaderOpener).headerProtector, sample)
 }
-func (v *VerifUAEAD) RawMaskEnc(sample []byte) []byte { return verifRawMask(v.a.headerEncrypter, sample) }
-func (v *VerifUAEAD) RawMaskDec(sample []byte) []byte { return verifRawMask(v.a.headerDecrypter, sample) }
-func (v *VerifUAEAD) VerifHighestRcvd() int64        { return int64(v.a.highestRcvdPN) }
+func (v *VerifUAEAD) RawMaskEnc(sample []byte) []byte {
+	return verifRawMask(v.a.headerEncrypter, sample)
+}
+func (v *VerifUAEAD) RawMaskDec(sample []byte) []byte {
+	return verifRawMask(v.a.headerDecrypter, sample)
+}
+func (v *VerifUAEAD) VerifHighestRcvd() int64 { return int64(v.a.highestRcvdPN) }
 func VerifLongOpenerHighestRcvd(o LongHeaderOpener) int64 {
 	return int64(o.(*longHeaderOpener).highestRcvdPN)
 }
